@@ -642,7 +642,11 @@ def ident_run(fns, table, comb, faithful_notes):
                 checked += 1
                 impls = [c for c in called_names(f.ast) if c.endswith('_impl')]
                 ok = impls and all(('keyword-check' in [k for k, _ in faithful_notes.get(i, [])]) for i in impls)
-                if not ok:
+                unknown = [i for i in impls if 'unsupported' in [k for k, _ in faithful_notes.get(i, [])]]
+                if not ok and unknown:
+                    undecided.append('%s: the lexer %s is written in a form the evaluation does not follow (%s): whether it refuses reserved words is not decided' % (
+                        f.name, ', '.join(unknown), '; '.join(str(v)[:80] for i in unknown for k, v in faithful_notes.get(i, []) if k == 'unsupported')))
+                elif not ok:
                     failures.append(fail(f.name, 'C13.ident.%s-without-keyword-check' % f.name,
                                          '%s is built from %s which does not refuse is_keyword(..)' % (n[1], impls or 'no *_impl lexer'), ['C13'], f))
     # (2),(3) is_keyword / begin_keywords / end_keywords: decided semantically by unit kwstack (Verus); here only their presence
